@@ -54,7 +54,9 @@ func init() {
 		},
 		Assumptions: []string{
 			"the statement is about successful steps: chains are fault-free except for at most one failing upgrade per chain (one injected cluster-side fault: first mutating request for a release resource rejected, else readiness wait failed), which only serves to make the newest revision differ from the deployed one; the failing step's own values are not judged; simulated API server, scripted waiter",
-			"the currently deployed revision is the revision with status deployed (= the last step that succeeded); rollback targets include failed revisions",
+			"the currently deployed revision is the revision with status deployed (= the last step that succeeded); when a failing step leaves no revision marked deployed, it is the revision the last successful step created; rollback targets include failed revisions",
+			"flag combinations (flag-combination plans: all 8 subsets of reset/reuse/reset-then-reuse): Helm documents and implements reset-values > reuse-values > reset-then-reuse-values, a lower flag is ignored; the reference applies the statement's rule of the winning flag",
+			"rollback-hook plans: the chart family carries a post-rollback hook; a failing rollback = the wait for that hook fails; like a failing upgrade it only sets up the following steps",
 			"null in new values is a value: overlay(old,new)[k]=new[k] (maps on both sides overlaid recursively); rendered values are compared with null-valued keys dropped on both sides",
 			"rendered values of a revision are required to equal effective(chart defaults in force, Config recorded for that revision); defaults in force follow the path: reuse-values keeps those of the deployed revision, other upgrades take the new chart's, rollback takes the target's",
 			"states that follow a violating transition are not expanded (consequences are not separate findings)",
@@ -63,7 +65,8 @@ func init() {
 		RequiredFloors: []string{"overlay-both-contribute", "overlay-nested-merge", "carry-forward", "default-replaced", "reset-drops-old", "defaults-stay-old", "defaults-switch-new",
 			"rollback-restores-different", "null-recorded", "type-scalar-to-map", "type-map-to-scalar", "secrets-json-roundtrip", "rollback-to-reuse-revision", "chain-reuse-reuse",
 			"failed-upgrade-recorded:reject", "failed-upgrade-recorded:wait-fail", "carry-from-deployed-not-latest", "defaults-from-deployed-not-latest", "rollback-to-failed-revision",
-			"empty-over-populated-depth1", "empty-over-populated-depth2", "populated-over-empty-depth1", "populated-over-empty-depth2", "empty-table-keeps-defaults"},
+			"empty-over-populated-depth1", "empty-over-populated-depth2", "populated-over-empty-depth1", "populated-over-empty-depth2", "empty-table-keeps-defaults",
+			"reset-wins-over-reuse", "reset-wins-over-reset-then-reuse", "reuse-wins-over-reset-then-reuse", "failed-rollback-recorded", "carry-after-failed-rollback"},
 	})
 }
 
@@ -80,6 +83,15 @@ var defaults = map[string]map[string]any{
 
 func chartSpec(v string) *hx.ChartSpec {
 	return &hx.ChartSpec{Name: "c", Version: v, Values: defaults[v], Probe: true}
+}
+
+// chartSpecHook is the same chart family with a post-rollback hook (a
+// ConfigMap the rollback waits for): the rollback-hook plans make that wait
+// fail, which leaves a failed rollback revision above the deployed one.
+func chartSpecHook(v string) *hx.ChartSpec {
+	cs := chartSpec(v)
+	cs.Hooks = []hx.HookSpec{{Name: "hpost", Kind: "ConfigMap", Events: []string{"post-rollback"}}}
+	return cs
 }
 
 type namedVals struct {
@@ -108,6 +120,10 @@ var emptyValues = []namedVals{
 	{"a={x:{p:1}}", map[string]any{"a": map[string]any{"x": map[string]any{"p": 1}}}},
 }
 
+// comboValues / hookValues: reduced alphabets of the flag-combination and rollback-hook plans.
+var comboValues = []namedVals{stepValues[0], stepValues[1], stepValues[4]}               // none, a=1, b=s
+var hookValues = []namedVals{stepValues[0], stepValues[1], stepValues[4], stepValues[3]} // + a={x:1}
+
 var stepValuesThorough = []namedVals{
 	{"a={x:null}", map[string]any{"a": map[string]any{"x": nil}}},
 }
@@ -116,20 +132,28 @@ var stepValuesThorough = []namedVals{
 type installSpec struct {
 	Chart string
 	V     map[string]any
+	Hook  bool
 }
 
 var installs = map[string]installSpec{
-	"i-none":   {"1", nil},
-	"i-a5-bu":  {"1", map[string]any{"a": 5, "b": "u"}},
-	"i-amap":   {"1", map[string]any{"a": map[string]any{"x": 5}}},
-	"i-anull":  {"1", map[string]any{"a": nil}},
-	"i2-a5-bu": {"2", map[string]any{"a": 5, "b": "u"}},
-	"i2-amap":  {"2", map[string]any{"a": map[string]any{"x": 5}}},
-	"i-adeep":  {"1", map[string]any{"a": map[string]any{"x": map[string]any{"p": 1, "q": 2}}}},
+	"i-none":   {Chart: "1", V: nil},
+	"i-a5-bu":  {Chart: "1", V: map[string]any{"a": 5, "b": "u"}},
+	"i-amap":   {Chart: "1", V: map[string]any{"a": map[string]any{"x": 5}}},
+	"i-anull":  {Chart: "1", V: map[string]any{"a": nil}},
+	"i2-a5-bu": {Chart: "2", V: map[string]any{"a": 5, "b": "u"}},
+	"i2-amap":  {Chart: "2", V: map[string]any{"a": map[string]any{"x": 5}}},
+	"i-adeep":  {Chart: "1", V: map[string]any{"a": map[string]any{"x": map[string]any{"p": 1, "q": 2}}}},
+	"ih-a5-bu": {Chart: "1", V: map[string]any{"a": 5, "b": "u"}, Hook: true},
+	"ih-amap":  {Chart: "1", V: map[string]any{"a": map[string]any{"x": 5}}, Hook: true},
 }
 
 var modes = []string{"default", "reset", "reuse", "reset-then-reuse"}
 
+// modes8: all subsets of the three flags. Helm documents (pkg/cmd/upgrade.go flag help) and implements
+// the precedence reset-values > reuse-values > reset-then-reuse-values: a lower flag is ignored.
+var modes8 = []string{"default", "reset", "reuse", "reset-then-reuse", "reset+reuse", "reset+reset-then-reuse", "reuse+reset-then-reuse", "reset+reuse+reset-then-reuse"}
+
+// modeOf is the effective mode of a step under the documented precedence.
 func modeOf(op hx.Op) string {
 	switch {
 	case op.Kind == "rollback":
@@ -144,6 +168,35 @@ func modeOf(op hx.Op) string {
 	return "default"
 }
 
+// flagsOf names the flags as given ("reset+reuse").
+func flagsOf(op hx.Op) string {
+	var f []string
+	if op.ResetValues {
+		f = append(f, "reset")
+	}
+	if op.ReuseValues {
+		f = append(f, "reuse")
+	}
+	if op.ResetThenReuseValues {
+		f = append(f, "reset-then-reuse")
+	}
+	if len(f) == 0 {
+		return modeOf(op)
+	}
+	return strings.Join(f, "+")
+}
+
+// keyMode is the mode component of finding keys: the effective mode; a
+// combination whose effective mode is reset keeps its flags (no known finding
+// lives there), reuse+reset-then-reuse is keyed as reuse (same code path as
+// plain reuse, so the known root causes keep their keys).
+func keyMode(op hx.Op) string {
+	if m := modeOf(op); m != "reset" {
+		return m
+	}
+	return flagsOf(op)
+}
+
 func valuesName(v map[string]any) string {
 	if len(v) == 0 {
 		return "none"
@@ -152,14 +205,20 @@ func valuesName(v map[string]any) string {
 }
 
 func upgradeOp(mode string, chart string, v map[string]any) hx.Op {
-	op := hx.Op{Kind: "upgrade", Chart: chartSpec(chart), Values: v}
-	switch mode {
-	case "reset":
-		op.ResetValues = true
-	case "reuse":
-		op.ReuseValues = true
-	case "reset-then-reuse":
-		op.ResetThenReuseValues = true
+	return upgradeOpOn(mode, chartSpec(chart), v)
+}
+
+func upgradeOpOn(mode string, chart *hx.ChartSpec, v map[string]any) hx.Op {
+	op := hx.Op{Kind: "upgrade", Chart: chart, Values: v}
+	for _, f := range strings.Split(mode, "+") {
+		switch f {
+		case "reset":
+			op.ResetValues = true
+		case "reuse":
+			op.ReuseValues = true
+		case "reset-then-reuse":
+			op.ResetThenReuseValues = true
+		}
 	}
 	return op
 }
@@ -173,8 +232,12 @@ type plan struct {
 	Inits   []string
 	Vals    []namedVals
 	Charts  string // "next" | "same,next" | "all"
-	// Fail: every chain may contain at most one failing upgrade (see failingStep).
+	// Fail: every chain may contain at most one failing step (see failingStep).
 	Fail bool
+	// Modes: nil = the four single modes.
+	Modes []string
+	// Hook: the chart family with a post-rollback hook; the failing steps are the rollbacks (hook wait fails).
+	Hook bool
 }
 
 var (
@@ -182,6 +245,8 @@ var (
 	initsQuick    = []string{"i-a5-bu", "i-amap", "i-anull"}
 	initsFour     = []string{"i-none", "i-a5-bu", "i-amap", "i-anull"}
 	initsEmpties  = []string{"i-amap", "i-adeep"}
+	initsCombos   = []string{"i-a5-bu", "i-amap"}
+	initsHook     = []string{"ih-a5-bu", "ih-amap"}
 	initsThorough = []string{"i-none", "i-a5-bu", "i-amap", "i-anull", "i2-a5-bu", "i2-amap"}
 )
 
@@ -189,24 +254,32 @@ func plans(tier string) []plan {
 	vals7 := append(append([]namedVals{}, stepValues...), stepValuesThorough...)
 	if tier == "thorough" {
 		return []plan{
-			{"mem-len3-allcharts", []string{"memory"}, 3, initsFour, vals7, "all", true},
-			{"mem-len4-nextchart", []string{"memory"}, 4, initsThorough, stepValues, "next", true},
-			{"sec-len3-same+next", []string{"secrets"}, 3, initsFour, stepValues, "same,next", true},
-			{"sec-len4-nextchart", []string{"secrets"}, 4, []string{"i-a5-bu"}, stepValues, "next", false},
-			{"mem-len4-empties", []string{"memory"}, 4, initsEmpties, emptyValues, "next", false},
-			{"sec-len3-empties", []string{"secrets"}, 3, initsEmpties, emptyValues, "next", false},
+			{"mem-len3-allcharts", []string{"memory"}, 3, initsFour, vals7, "all", true, nil, false},
+			{"mem-len4-nextchart", []string{"memory"}, 4, initsThorough, stepValues, "next", true, nil, false},
+			{"sec-len3-same+next", []string{"secrets"}, 3, initsFour, stepValues, "same,next", true, nil, false},
+			{"sec-len4-nextchart", []string{"secrets"}, 4, []string{"i-a5-bu"}, stepValues, "next", false, nil, false},
+			{"mem-len4-empties", []string{"memory"}, 4, initsEmpties, emptyValues, "next", false, nil, false},
+			{"sec-len3-empties", []string{"secrets"}, 3, initsEmpties, emptyValues, "next", false, nil, false},
+			{"mem-len3-flagcombos", []string{"memory"}, 3, initsCombos, stepValues, "next", false, modes8, false},
+			{"sec-len3-flagcombos", []string{"secrets"}, 3, initsCombos, comboValues, "next", false, modes8, false},
+			{"mem-len4-rollbackhook", []string{"memory"}, 4, initsHook, comboValues, "next", true, nil, true},
+			{"sec-len3-rollbackhook", []string{"secrets"}, 3, initsHook, comboValues, "next", true, nil, true},
 		}
 	}
 	return []plan{
-		{"mem-len3-same+next", []string{"memory"}, 3, initsQuick, stepValues, "same,next", true},
-		{"sec-len3-nextchart", []string{"secrets"}, 3, initsQuick, stepValues, "next", true},
-		{"mem-len3-empties", []string{"memory"}, 3, initsEmpties, emptyValues, "next", false},
-		{"sec-len2-empties", []string{"secrets"}, 2, initsEmpties, emptyValues, "next", false},
+		{"mem-len3-same+next", []string{"memory"}, 3, initsQuick, stepValues, "same,next", true, nil, false},
+		{"sec-len3-nextchart", []string{"secrets"}, 3, initsQuick, stepValues, "next", true, nil, false},
+		{"mem-len3-empties", []string{"memory"}, 3, initsEmpties, emptyValues, "next", false, nil, false},
+		{"sec-len2-empties", []string{"secrets"}, 2, initsEmpties, emptyValues, "next", false, nil, false},
+		{"mem-len3-flagcombos", []string{"memory"}, 3, initsCombos, comboValues, "next", false, modes8, false},
+		{"sec-len2-flagcombos", []string{"secrets"}, 2, initsCombos, comboValues, "next", false, modes8, false},
+		{"mem-len3-rollbackhook", []string{"memory"}, 3, initsHook, hookValues, "next", true, nil, true},
+		{"sec-len3-rollbackhook", []string{"secrets"}, 3, []string{"ih-a5-bu"}, comboValues, "next", true, nil, true},
 	}
 }
 
 // allInits: every install, simplest first (used by the minimiser).
-var allInits = append(append([]string{}, initsThorough...), "i-adeep")
+var allInits = append(append([]string{}, initsThorough...), "i-adeep", "ih-a5-bu", "ih-amap")
 
 func nextChart(v string) string {
 	switch v {
@@ -231,7 +304,11 @@ func (p plan) charts(deployedChart string) []string {
 func makeInit(drv, init string) *hx.World {
 	w := hx.NewWorld(drv)
 	is := installs[init]
-	w.Exec(hx.Op{Kind: "install", Release: "r", Chart: chartSpec(is.Chart), Values: is.V}, nil)
+	cs := chartSpec(is.Chart)
+	if is.Hook {
+		cs = chartSpecHook(is.Chart)
+	}
+	w.Exec(hx.Op{Kind: "install", Release: "r", Chart: cs, Values: is.V}, nil)
 	return w
 }
 
@@ -258,10 +335,19 @@ func failingStep(op hx.Op, deployedChart string) bool {
 }
 
 // pickFault chooses, from the calls of the fault-free run of a step, the call
-// that makes the step fail: the first mutating request for a release resource
-// is rejected; when the upgrade changes nothing in the cluster (no such
-// request) the readiness wait fails instead.
-func pickFault(calls []sim.Call) *sim.Fault {
+// that makes the step fail. Upgrade: the first mutating request for a release
+// resource is rejected; when the upgrade changes nothing in the cluster (no
+// such request) the readiness wait fails instead. Rollback (hook plans): the
+// wait for the post-rollback hook fails (the chart family has no other hook).
+func pickFault(op hx.Op, calls []sim.Call) *sim.Fault {
+	if op.Kind == "rollback" {
+		for _, c := range calls {
+			if c.Class == "wait" && strings.HasPrefix(c.Label, "wait:WatchUntilReady") {
+				return &sim.Fault{Label: c.Label, Occurrence: c.Occurrence, Kind: "wait-fail"}
+			}
+		}
+		return nil
+	}
 	for _, c := range calls {
 		if c.Class == "cluster" && c.Mutating {
 			return &sim.Fault{Label: c.Label, Occurrence: c.Occurrence, Kind: "reject"}
@@ -280,6 +366,13 @@ func config(p plan, tier string) *opspace.Config {
 	perKey := map[string]int{}
 	curDepChart := "1"  // chart version of the deployed revision of the state being expanded
 	var want *sim.Fault // the fault chosen for the step being expanded
+	planModes, spec := modes, chartSpec
+	if p.Modes != nil {
+		planModes = p.Modes
+	}
+	if p.Hook {
+		spec = chartSpecHook
+	}
 	cfg := &opspace.Config{
 		Property: prop,
 		Drivers:  p.Drivers,
@@ -307,8 +400,8 @@ func config(p plan, tier string) *opspace.Config {
 			// simplest first: no values, then one key
 			for _, v := range p.Vals {
 				for _, ch := range p.charts(depChart) {
-					for _, m := range modes {
-						out = append(out, opspace.Step{Op: upgradeOp(m, ch, v.V)})
+					for _, m := range planModes {
+						out = append(out, opspace.Step{Op: upgradeOpOn(m, spec(ch), v.V)})
 					}
 				}
 			}
@@ -321,7 +414,7 @@ func config(p plan, tier string) *opspace.Config {
 		Check: func(c *core.Ctx, t *opspace.Transition) {
 			if t.Step.Fault == nil {
 				// opspace runs a step fault-free first and then asks FaultKinds for every call of that run
-				want = pickFault(t.Res.Calls)
+				want = pickFault(t.Step.Op, t.Res.Calls)
 			}
 			v := evaluate(t)
 			lastBad = !v.Continue
@@ -349,7 +442,11 @@ func config(p plan, tier string) *opspace.Config {
 		// a failing last step has no successor whose carried values could be checked
 		cfg.FaultAt = func(depth int, _ []opspace.Step) bool { return depth < p.Depth-1 }
 		cfg.FaultKinds = func(_ string, op hx.Op, call sim.Call) []string {
-			if want == nil || !failingStep(op, curDepChart) || call.Label != want.Label || call.Occurrence != want.Occurrence {
+			fails := failingStep(op, curDepChart)
+			if p.Hook {
+				fails = op.Kind == "rollback" // hook plans: every rollback is also run with its post-rollback hook failing
+			}
+			if want == nil || !fails || call.Label != want.Label || call.Occurrence != want.Occurrence {
 				return nil
 			}
 			return []string{want.Kind}
@@ -384,9 +481,19 @@ func run(c *core.Ctx) {
 		for _, v := range p.Vals {
 			vn = append(vn, v.Name)
 		}
-		c.Bound("plan:"+p.Name, fmt.Sprintf("drivers=%s chain_length<=%d installs=%s step_values=[%s] modes=%s charts_per_upgrade=%s rollback=every-stored-revision(also failed ones) failing_upgrades=%s",
-			strings.Join(p.Drivers, ","), p.Depth, strings.Join(p.Inits, ","), strings.Join(vn, " "), strings.Join(modes, ","), p.Charts,
-			map[bool]string{true: "at most one per chain, at every position but the last: default{a:1} | default{b:s} | reuse{a:1}, next chart, first mutating cluster request rejected (else readiness wait failed)", false: "none"}[p.Fail]))
+		pm := modes
+		if p.Modes != nil {
+			pm = p.Modes
+		}
+		failing := "none"
+		switch {
+		case p.Fail && p.Hook:
+			failing = "at most one per chain, at every position but the last: any rollback, wait for the post-rollback hook of the chart family fails"
+		case p.Fail:
+			failing = "at most one per chain, at every position but the last: default{a:1} | default{b:s} | reuse{a:1}, next chart, first mutating cluster request rejected (else readiness wait failed)"
+		}
+		c.Bound("plan:"+p.Name, fmt.Sprintf("drivers=%s chain_length<=%d installs=%s step_values=[%s] modes=%s charts_per_upgrade=%s post_rollback_hook=%v rollback=every-stored-revision(also failed ones) failing_steps=%s",
+			strings.Join(p.Drivers, ","), p.Depth, strings.Join(p.Inits, ","), strings.Join(vn, " "), strings.Join(pm, ","), p.Charts, p.Hook, failing))
 		config(p, c.Tier).Run(c)
 	}
 }
@@ -675,8 +782,15 @@ func evaluate(t *opspace.Transition) (v verdict) {
 	mode := modeOf(op)
 	pre, post := t.PreHist, t.PostHist
 	dep := deployed(pre)
+	// the revision created by the last step that succeeded (1 = the install)
+	refDep := 1
+	for i, st := range t.Path[:len(t.Path)-1] {
+		if st.Fault == nil {
+			refDep = i + 2
+		}
+	}
 	violate := func(clause, shape, what string) {
-		key := core.SanitizeKey(clause + "|" + mode + "|" + shape)
+		key := core.SanitizeKey(clause + "|" + keyMode(op) + "|" + shape)
 		v.Findings = append(v.Findings, finding{key, fmt.Sprintf("%s: %s [driver=%s install=%s history=%v]", clause, what, t.Driver, t.Init, opspace.PathStrings(t.Path))})
 	}
 	ds := refDefaults(t.Init, t.Path)
@@ -699,17 +813,25 @@ func evaluate(t *opspace.Transition) (v verdict) {
 		}
 	}
 	if dep == nil {
-		v.NotExh = "no deployed revision before " + t.Step.String()
+		// No revision is marked deployed (only possible after a failing step lost the marker). The
+		// deployed revision the statement speaks about is then the one the last successful step created.
+		dep = find(pre, refDep)
+	}
+	if dep == nil || dep.Version != refDep {
+		v.NotExh = fmt.Sprintf("the revision marked deployed before %s is not the one of the last successful step (%d): %s", t.Step.String(), refDep, hx.StatusVector(pre))
 		return v
 	}
 	if t.Step.Fault != nil {
-		// the failing upgrade: it must leave a failed revision and the deployed one where it was (C01/C03 decide
-		// that; here it is only the precondition for the steps that follow); its own values are not judged
+		// the failing step: it must fail and leave a failed revision; whether the deployed one keeps its status is
+		// decided by C01/C03 - here it is only the precondition for the steps that follow; its own values are not judged
 		if !res.Failed || len(post) != len(pre)+1 || post[len(post)-1].Version != t.Depth+1 ||
-			post[len(post)-1].Info.Status != rspb.StatusFailed || deployed(post) == nil || deployed(post).Version != dep.Version {
+			post[len(post)-1].Info.Status != rspb.StatusFailed || (deployed(post) != nil && deployed(post).Version != dep.Version) {
 			v.Outcome = mode + ":failing-step-unexpected"
-			v.NotExh = fmt.Sprintf("upgrade with %s did not leave (deployed, failed): err=%q ledger=%s; not continued", t.Step.Fault, res.Err, hx.StatusVector(post))
+			v.NotExh = fmt.Sprintf("%s with %s did not leave (deployed, failed): err=%q ledger=%s; not continued", op.Kind, t.Step.Fault, res.Err, hx.StatusVector(post))
 			return v
+		}
+		if deployed(post) == nil {
+			v.NoteText = fmt.Sprintf("after the failing %s no revision is marked deployed (%s); the following steps are judged against revision %d", op.Kind, hx.StatusVector(post), dep.Version)
 		}
 		for _, r := range pre {
 			if pr := find(post, r.Version); pr != nil && canon(normMap(pr.Config)) != canon(normMap(r.Config)) {
@@ -718,7 +840,11 @@ func evaluate(t *opspace.Transition) (v verdict) {
 		}
 		v.Counted, v.Continue = true, len(v.Findings) == 0
 		v.Outcome = mode + ":failed-step:" + t.Step.Fault.Kind
-		v.Floors = append(v.Floors, "failed-upgrade-recorded:"+t.Step.Fault.Kind)
+		if op.Kind == "rollback" {
+			v.Floors = append(v.Floors, "failed-rollback-recorded")
+		} else {
+			v.Floors = append(v.Floors, "failed-upgrade-recorded:"+t.Step.Fault.Kind)
+		}
 		return v
 	}
 	if res.Failed {
@@ -820,9 +946,9 @@ func evaluate(t *opspace.Transition) (v verdict) {
 		dclass = "defaults-kept"
 	}
 	if ok {
-		v.Outcome = mode + ":" + class + ":" + dclass + ":ok"
+		v.Outcome = flagsOf(op) + ":" + class + ":" + dclass + ":ok"
 	} else {
-		v.Outcome = mode + ":" + class + ":" + dclass + ":violation"
+		v.Outcome = flagsOf(op) + ":" + class + ":" + dclass + ":violation"
 		return v
 	}
 	floor := func(f string) { v.Floors = append(v.Floors, f) }
@@ -886,6 +1012,20 @@ func evaluate(t *opspace.Transition) (v verdict) {
 				floor("rollback-to-failed-revision")
 			}
 		}
+		if carries && t.Path[latest.Version-2].Op.Kind == "rollback" && canon(normMap(latest.Config)) != canon(depCfg) {
+			floor("carry-after-failed-rollback")
+		}
+	}
+	if mode == "reset" && len(depCfg) > 0 && canon(overlay(depCfg, nw)) != canon(want) {
+		if op.ReuseValues {
+			floor("reset-wins-over-reuse")
+		}
+		if op.ResetThenReuseValues {
+			floor("reset-wins-over-reset-then-reuse")
+		}
+	}
+	if mode == "reuse" && op.ResetThenReuseValues && dclass == "defaults-kept" {
+		floor("reuse-wins-over-reset-then-reuse")
 	}
 	if kindOf(want, "a") == "null" {
 		floor("null-recorded")
